@@ -59,11 +59,60 @@ def build(case):
     return gen_lat.build_rect(case.rng, case.family)
 
 
+CPU_LIMIT = 240     # seconds of processor time; such a deck needs a few
+
+
+def finishes(case, ctx, out, deck):
+    '''Convert the deck once in a process of its own whose processor time is
+    limited by the kernel (RLIMIT_CPU: a logical budget, it does not depend
+    on how loaded the machine is).  A conversion that is still computing
+    when the budget is used up counts as one that does not come back.'''
+    import os
+    import resource
+    import subprocess
+    import sys
+    from .. import core
+    inp = os.path.join(ctx.workdir.path, 'budget.imcnp')
+    outp = os.path.join(ctx.workdir.path, 'budget.t4')
+    with open(inp, 'w', encoding='utf-8') as fil:
+        fil.write(M.render(deck))
+
+    def limit():
+        resource.setrlimit(resource.RLIMIT_CPU, (CPU_LIMIT, CPU_LIMIT + 5))
+    try:
+        proc = subprocess.run([sys.executable, '-m', 'vt.oneshot', '-o', outp,
+                               inp] + list(deck.cli), cwd=core.VERIF,
+                              capture_output=True, text=True,
+                              preexec_fn=limit, timeout=7200)
+        code = proc.returncode
+    except subprocess.TimeoutExpired:
+        code = None
+    for path in (inp, outp):
+        if os.path.exists(path):
+            os.remove(path)
+    out.counters['cpu_budget_runs'] += 1
+    if code is None:
+        out.skipped = 'budget-run-starved'
+        return False
+    if code < 0:
+        out.judged += 1
+        out.violation('conversion-does-not-finish', 'a lattice of '
+                      f'{len(deck.cell(gen_lat.LAT_CELL).fill.array)} elements '
+                      'whose FILL array is written with repeats was still '
+                      f'being converted after {CPU_LIMIT} s of processor '
+                      f'time (signal {-code})')
+        out.decks.append(('deck', M.render(deck), list(deck.cli)))
+        return False
+    return True
+
+
 def lattice_run(case, ctx, deck, kind):
     from ..core import Outcome
     out = Outcome()
     out.tags |= deck.tags
     out.structure = gen_lat.structure_of(deck)
+    if 'lat.long-array' in deck.tags and not finishes(case, ctx, out, deck):
+        return out
     run_ = convert_deck(case, ctx, out, deck)
     if not run_.ok:
         crash_violation(out, run_)
